@@ -13,7 +13,7 @@ from . import lib as L
 
 class Contract(object):
     def __init__(self, cid, props, func, run, replay=None, doc='', requires_doc=(), max_paths=400, timeout_ms=10000,
-                 also=()):
+                 also=(), frame=()):
         self.cid = cid
         self.props = list(props)
         self.func = func            # 'module:qualname' of the function under contract
@@ -24,6 +24,7 @@ class Contract(object):
         self.max_paths = max_paths
         self.timeout_ms = timeout_ms
         self.also = list(also)      # further functions whose real bodies this contract executes
+        self.frame = list(frame)    # trusted callees the contract summarises as functions of their arguments: frame condition checked
 
 
 REGISTRY = []
@@ -61,6 +62,7 @@ class VC(object):
         self.inputs = {}      # name -> (kind, term/arr)
         self.canaries = {}
         self.n_requires = 0
+        self.requires_list = []
 
     # ---- inputs
     def int(self, name, ge=None):
@@ -105,10 +107,12 @@ class VC(object):
     def require(self, what, f):
         """precondition (assumed); every requires is covered by a satisfiability check"""
         self.n_requires += 1
-        self.ctx.assume(f)
+        if what not in self.requires_list:
+            self.requires_list.append(what)
+        self.ctx.assume(f, _depth=99)        # recorded by name, not by site
 
     def assume(self, f):
-        self.ctx.assume(f)
+        self.ctx.assume(f, _depth=2)
 
     def check_cover(self):
         if getattr(self, '_covered', False):
@@ -362,10 +366,12 @@ class ContractResult(object):
         self.error = None
         self.functions = {}
         self.samples = []
+        self.requires = []
+        self.assumed = []
 
     def to_dict(self):
         return {
-            'cid': self.cid, 'paths': self.paths, 'cut_paths': self.cut_paths,
+            'cid': self.cid, 'paths': self.paths, 'cut_paths': self.cut_paths, 'requires': self.requires, 'assumed': self.assumed,
             'clauses': self.clauses, 'undecided': self.undecided, 'trusted': sorted(self.trusted),
             'canaries': self.canaries, 'solver_time': self.solver_time, 'solver_calls': self.solver_calls,
             'inlined': sorted(self.inlined), 'dropped': sorted(self.dropped), 'wall': self.wall,
@@ -414,9 +420,48 @@ def model_to_python(m, inputs, maxdim=4):
     return out
 
 
+_FRAME_CACHE = {}
+
+
+def frame_clause(program, spec):
+    """the syntactic frame condition of one function (pyvc/frame.py) as a clause: (name, status, detail, where)"""
+    import ast as _ast
+    from . import frame as _frame
+    if ':' not in spec or spec.startswith('unmodelled'):
+        return None, None, None, None
+    modname, qual = spec.split(':')
+    try:
+        path = program.path_of(modname)
+        path = path[0] if isinstance(path, tuple) else path
+        if path not in _FRAME_CACHE:
+            _FRAME_CACHE[path] = _ast.parse(open(path).read())
+        tree = _FRAME_CACHE[path]
+    except Exception:
+        return None, None, None, None
+    node, body = None, tree.body
+    parts = [x for x in qual.split('.') if x not in ('setter', 'getter')]
+    for i, part in enumerate(parts):
+        found = [n for n in body if isinstance(n, (_ast.FunctionDef, _ast.ClassDef)) and n.name == part]
+        if not found:
+            return None, None, None, None
+        # a property has a getter and a setter of the same name: the setter is the later definition
+        node = found[-1] if qual.endswith('.setter') else found[0]
+        body = node.body
+    if not isinstance(node, _ast.FunctionDef):
+        return None, None, None, None
+    v = _frame.violations(node, _frame.module_imports(tree))
+    name = 'frame/assigns only its locals, its arguments and what hangs off them@%s' % qual
+    where = '%s:%d' % (modname, node.lineno)
+    if not v:
+        return name, 'proved', 'syntactic frame check (pyvc/frame.py): no global declaration, no store into or mutating call on a module-level object', where
+    return name, 'refuted', "; ".join("line %d: %s" % x for x in v)[:600], where
+
+
 def run_contract(c, root='/repo/src', verbose=False):
     t0 = time.time()
     res = ContractResult(c.cid)
+    from . import interp as _interp0
+    _interp0.ASSUMED_SITES.clear()
     lib = Lib()
     program = Program(root, lib)
     worklist = [[]]
@@ -468,6 +513,9 @@ def run_contract(c, root='/repo/src', verbose=False):
                 cl['detail'] = o.detail
         for k, v in vc.canaries.items():
             res.canaries[k] = res.canaries.get(k, False) or v
+        for w in vc.requires_list:
+            if w not in res.requires:
+                res.requires.append(w)
         res.trusted |= ctx.trusted
         res.solver_time += ctx.solver_time
         res.solver_calls += ctx.solver_calls
@@ -478,5 +526,11 @@ def run_contract(c, root='/repo/src', verbose=False):
             p, l0, l1, sha = program.func_index[spec]
             res.functions[spec] = {'file': p, 'lines': [l0, l1], 'sha256_16': sha,
                                    'role': 'under contract' if spec in [c.func] + c.also else 'inlined callee (real body executed)'}
+    for spec in [c.func] + c.also + list(getattr(c, 'frame', ())):
+        name, status, detail, where = frame_clause(program, spec)
+        if name:
+            res.clauses[name] = {'status': status, 'instances': 1, 'time': 0.0, 'model': None, 'where': where, 'detail': detail}
+    from . import interp as _interp
+    res.assumed = ["%s:%d: %s" % (k[0], k[1], v) for k, v in sorted(_interp.ASSUMED_SITES.items())]
     res.wall = time.time() - t0
     return res
